@@ -58,6 +58,7 @@ type Case struct {
 	BadSeg  int      `json:"badseg,omitempty"`  // col: segment index of that difference
 	Bounds  []int    `json:"bounds,omitempty"`  // rows: byte offsets of the row boundaries
 	PPanic  int      `json:"ppanic,omitempty"`  // rows: prefixes rejected by a (recovered) panic
+	RowsJ   []RowJ   `json:"rowsj,omitempty"`   // rows: the batch, field by field (for the model)
 	Seed    uint64   `json:"seed,omitempty"`    // rows/record: generator seed of the case
 	seed    uint64
 }
